@@ -315,6 +315,8 @@ func runInstance(ld *Loaded, h HarnessSpec, ts TierSpec, args []int, opt *Option
 					res.Status, res.Msg = "unsupported", u.msg
 				case solverError:
 					res.Status, res.Msg = "error", u.msg
+				case blockedErr:
+					res.Status, res.Msg = "unsupported", "deadlock under the run-to-completion goroutine model: "+u.why
 				case timeoutErr:
 					res.Status, res.Msg = "timeout", fmt.Sprintf("execution exceeded %ds", tmo)
 				default:
